@@ -418,6 +418,15 @@ func genTables() string {
 		}
 		fmt.Fprintf(&b, "  (%d, (%s : Int))%s\n", w, check.VerifBitMask(w).String(), sep)
 	}
+	b.WriteString("]\n\n/-- ioMethodAdvances (bounds.go): method, bytes the checker demands as `length() >= n`\nbefore the unchecked call, whether the call consumes them -/\ndef ioMethodAdvances : List (String × Nat × Bool) := [\n")
+	adv := check.VerifIOMethodAdvances()
+	for i, r := range adv {
+		sep := ","
+		if i == len(adv)-1 {
+			sep = ""
+		}
+		fmt.Fprintf(&b, "  (%q, %s, %v)%s\n", r.Method, r.Advance.String(), r.Update, sep)
+	}
 	b.WriteString("]\n\nend WuffsVerif.Gen.C01\n")
 	return b.String()
 }
